@@ -6,6 +6,9 @@ import (
 	"fmt"
 	"os"
 	"runtime/debug"
+	"sort"
+	"strings"
+	"sync"
 	"time"
 
 	"verif/ev"
@@ -13,15 +16,20 @@ import (
 )
 
 func main() {
+	if len(os.Args) == 3 && os.Args[1] == childFlag {
+		childMain(os.Args[2])
+		return
+	}
 	r := ev.Start("C11", "exploration",
 		"PART A (exhaustive boxes): the real aclu.IdentifyAccount / aclu.CheckContractMethodPerm over a stub AclManager, for EVERY rule assignment of a box "+
-			"(threshold rules: every weight in {0,0.3,0.5,1} for each of 4 keys + 1 nested account x accept in {0.5,1,1.5}; key-set rules: every choice of <= 3 distinct sets "+
-			"among all subsets of those 5 members; 6 rules for the nested account incl. an account cycle) x EVERY multiset of <= 4 signer URIs over {A/k, A/B/k, B/k, bare k, "+
+			"(threshold rules: every weight in {0,0.3,0.5,1} for each of 4 keys + 1 nested account x accept in {0.5,1,1.5}; key-set rules: every choice of <= 3 (quick: <= 2) distinct sets "+
+			"among all subsets of those 5 members; 6 (quick: 3) rules for the nested account incl. an account cycle; the boxes with the confusion URIs use a reduced rule space in quick — "+
+			"measured sizes are in counters A.<box>.rule-configs / .signer-lists) x EVERY multiset of <= 4 signer URIs over {A/k, A/B/k, B/k, bare k, "+
 			"A/k/k', A/B/k/k', look-alike roots (17 digits, chain-name prefix / suffix, no chain), rule-less account in the path, empty component, A/A/k, A/B/A/k, outsider key}; "+
 			"the same for method rules (members 3 keys + 2 accounts). Answers are compared with a model written from the statement in exact decimal arithmetic, evaluated under a "+
 			"strict and a liberal reading where the statement leaves a choice (only what both demand is enforced). Monotonicity: every accepted multiset x every URI added. "+
 			"Extra boxes: all ORDERS of signer lists, all orders of subsets of 6 signers with decimal weights at / around the threshold, negative weights, degenerate rules. "+
-			"PART B (node): accounts with 10 different rules created by $acl.NewAccount and confirmed; SetAccountAcl, SetMethodAcl, raw puts / deletes into XCAccount, XCContract, "+
+			"PART B (node): accounts with 7 (thorough: 10) different rules created by $acl.NewAccount and confirmed; SetAccountAcl, SetMethodAcl, raw puts / deletes into XCAccount, XCContract, "+
 			"XCContract2Account through the $verif kernel contract, spending the account's outputs and calling a method-rule-protected contract, each signed by every subset of a "+
 			"signer-URI menu (own account, nested account, other account, bare, look-alike, unverified name before the key), before and after a rule change is pending / confirmed; "+
 			"State.VerifyTx must accept iff the rule confirmed at the tip is satisfied. A case is distinct by (box, rule class, multiset of URI categories, oracle verdict) in part A "+
@@ -33,11 +41,17 @@ func main() {
 	}
 	sn.InitLogs()
 	u := NewUniverse()
-	step("part A", func() { partA(r, u) })
+	if os.Getenv("C11_SKIP_B") == "" {
+		step("null-key-set probe (child)", func() { nullSetProbe(r) })
+	}
+	if os.Getenv("C11_SKIP_A") == "" {
+		step("part A", func() { partA(r, u) })
+	}
 	if os.Getenv("C11_SKIP_B") == "" {
 		step("part B", func() { partB(r) })
 	}
 
+	flush(r)
 	r.Exhaustive(true)
 	r.Extra("exhaustive_box", "every (rule assignment, signer multiset) pair of each part-A box named in counters A.<box>.*; part B enumerates every subset of its signer menu per (rule, operation, phase)")
 	r.Floor("A.evaluations", 1000000)
@@ -52,11 +66,51 @@ func main() {
 		partBFloors(r)
 	}
 	r.Assume("every signer URI handed to the evaluation ends in a key whose signature was verified upstream (State.verifySignatures rejects a transaction with any bad auth_require signature); names before that key are NOT verified")
-	r.Assume("not enforced (counted as oracle.unspecified): bare key offered to an account rule, account-format name without a rule inside a path, empty listed key set, URI with an empty component (fail-closed error accepted), evaluation of an account that has no rule")
+	r.Assume("not enforced (counted as oracle.unspecified): bare key offered to an account rule, account-format name without a rule inside a path, empty listed key set, evaluation of an account that has no rule; a URI with an empty component or with a non-account name before the signing key contributes nothing — refusing the whole list because of it (fail closed) and ignoring just that URI are both accepted")
+	r.Assume("observed but not judged (statement is silent): who may re-point an existing contract->account mapping (counters B.observed.remap-*), calls while a method's first rule is only pending, SetMethodAcl while the contract->account mapping is unconfirmed")
 	r.Assume("threshold sums are compared in exact decimal arithmetic on the weights as written in the rule's JSON")
 	r.Assume("part B: the signers of a transaction are its auth_require entries with a valid signature; the initiator is an outsider key except in the cases counted under B.initiator-*, where only the sandwich (satisfied without it => accept, unsatisfied even with it => reject) is enforced")
 	sn.CleanupScratch()
 	r.Finish()
+}
+
+// findings of both parts are merged per signature: the pure evaluation witness (part A) and
+// the end-to-end witness (part B) of the same defect travel in one violation.
+type merged struct {
+	detail  []string
+	witness map[string]interface{}
+}
+
+var (
+	allMu       sync.Mutex
+	allFindings = map[string]*merged{}
+)
+
+func report(part, sig, detail string, witness interface{}) {
+	allMu.Lock()
+	defer allMu.Unlock()
+	m := allFindings[sig]
+	if m == nil {
+		m = &merged{witness: map[string]interface{}{}}
+		allFindings[sig] = m
+	}
+	if _, dup := m.witness[part]; dup {
+		return
+	}
+	m.witness[part] = witness
+	m.detail = append(m.detail, "["+part+"] "+detail)
+}
+
+func flush(r *ev.Run) {
+	var sigs []string
+	for s := range allFindings {
+		sigs = append(sigs, s)
+	}
+	sort.Strings(sigs)
+	for _, s := range sigs {
+		m := allFindings[s]
+		r.Violation(s, strings.Join(m.detail, " || "), m.witness)
+	}
 }
 
 func partA(r *ev.Run, u *Universe) {
@@ -69,19 +123,22 @@ func partA(r *ev.Run, u *Universe) {
 	membersA := []int{k[0], k[1], k[2], k[3], u.B}
 	membersM := []int{k[0], k[1], k[2], u.A, u.B}
 
-	// 1. account rules, core URIs, the full rule space of DESIGN.md
+	// 1. account rules, core URIs, the full rule space of DESIGN.md (quick: key-set rules with <= 2 sets, 3 of the 6 nested rules)
 	thrA := thresholdRules(membersA, weightVals, acceptVals)
-	ksA := keysetRules(membersA, 3, 5)
 	core := &Box{Name: "account-core", U: u, Root: u.A, URIs: coreOnly(aURIs), MaxLen: 4, Mono: true}
-	core.Configs = accountConfigs(u, append(append([]*MRule{}, thrA...), ksA...), bs)
+	if quick {
+		core.Configs = accountConfigs(u, append(append([]*MRule{}, thrA...), keysetRules(membersA, 2, 5)...), []*MRule{bs[1], bs[3], bs[4]})
+	} else {
+		core.Configs = accountConfigs(u, append(append([]*MRule{}, thrA...), keysetRules(membersA, 3, 5)...), bs)
+	}
 	core.Run(r)
 
 	// 2. account rules, all URIs (confusion candidates)
 	conf := &Box{Name: "account-confusion", U: u, Root: u.A, URIs: aURIs, MaxLen: 4, Mono: true}
 	if quick {
 		m4 := []int{k[0], k[1], k[2], u.B}
-		rules := append(thresholdRules(m4, []int64{0, 500, 1000}, []int64{500, 1000}), keysetRules(m4, 2, 4)...)
-		conf.Configs = accountConfigs(u, rules, []*MRule{bs[0], bs[1], bs[4]})
+		rules := append(thresholdRules(m4, []int64{0, 500, 1000}, []int64{500, 1000}), keysetRules(m4, 2, 2)...)
+		conf.Configs = accountConfigs(u, rules, []*MRule{bs[1], bs[4]})
 	} else {
 		conf.Configs = accountConfigs(u, append(append([]*MRule{}, thrA...), keysetRules(membersA, 2, 5)...), bs)
 	}
@@ -92,7 +149,7 @@ func partA(r *ev.Run, u *Universe) {
 	pairs := acctPairs(u)
 	mcore := &Box{Name: "method-core", U: u, Root: -1, URIs: coreOnly(mURIs), MaxLen: 4, Mono: true}
 	if quick {
-		mcore.Configs = methodConfigs(u, append(append([]*MRule{}, thrM...), keysetRules(membersM, 2, 5)...), pairs)
+		mcore.Configs = methodConfigs(u, append(append([]*MRule{}, thrM...), keysetRules(membersM, 2, 5)...), [][2]*MRule{pairs[1], pairs[3]})
 	} else {
 		mcore.Configs = methodConfigs(u, append(append([]*MRule{}, thrM...), keysetRules(membersM, 3, 5)...), pairs)
 	}
@@ -101,7 +158,7 @@ func partA(r *ev.Run, u *Universe) {
 	if quick {
 		m4 := []int{k[0], k[1], u.A, u.B}
 		rules := append(thresholdRules(m4, []int64{0, 500, 1000}, []int64{500, 1000}), keysetRules(m4, 2, 4)...)
-		mconf.Configs = methodConfigs(u, rules, pairs[:3])
+		mconf.Configs = methodConfigs(u, rules, [][2]*MRule{pairs[1], pairs[3]})
 	} else {
 		mconf.Configs = methodConfigs(u, append(append([]*MRule{}, thrM...), keysetRules(membersM, 2, 5)...), pairs)
 	}
@@ -111,7 +168,7 @@ func partA(r *ev.Run, u *Universe) {
 	ord := &Box{Name: "account-orders", U: u, Root: u.A, URIs: catOnly(aURIs, cDirect, cNested), MaxLen: 4, Ordered: true}
 	if quick {
 		m4 := []int{k[0], k[1], k[2], u.B}
-		ord.Configs = accountConfigs(u, thresholdRules(m4, weightVals, acceptVals), []*MRule{bs[1], bs[2]})
+		ord.Configs = accountConfigs(u, thresholdRules(m4, weightVals, acceptVals), []*MRule{bs[2]})
 	} else {
 		ord.Configs = accountConfigs(u, thrA, bs)
 	}
